@@ -554,11 +554,21 @@ class Translator:
             self.sigs = {}
         self.sigs[cname] = (ret.c().strip(), list(params))
         self.protos[cname] = (d['id'], head + ';')
-        clauses = self.weave_fn(self.contract)
         inits = ''
         if d['kind'] == 'CXXConstructorDecl':
             inits = self.ctor_inits(d)
-        text = head + '\n' + clauses + self.block(body, pre=inits) + '\n'
+        nstat = len(getattr(self, 'file_statics', []))
+        btext = self.block(body, pre=inits)
+        contract_now = dict(self.contract)
+        if self.contract.get('statics_value_initialised'):
+            # function-local statics with a value-initialising initialiser start out empty (dfcc makes statics arbitrary)
+            extra = []
+            for gname, decl in getattr(self, 'file_statics', [])[nstat:]:
+                if decl.startswith('vbytes '):
+                    extra.append('%s.len == 0' % gname)
+            contract_now['requires'] = list(contract_now.get('requires', [])) + extra
+        clauses = self.weave_fn(contract_now)
+        text = head + '\n' + clauses + btext + '\n'
         self.funcs[cname] = text
         self.func_order.append(cname)
         return cname
@@ -688,6 +698,21 @@ class Translator:
             if c0.get('kind') in ('MemberExpr', 'DeclRefExpr') and (c0.get('name') or c0.get('referencedDecl', {}).get('name')) in self.u.get('drop_if_cond', []) and not n.get('hasElse'):
                 self.dropped.add('`if (%s) ...` statements (tracing: no effect on verified state)' % (c0.get('name') or c0.get('referencedDecl', {}).get('name')))
                 return ''
+            mention = self.u.get('drop_if_mentions', [])
+            if mention and not n.get('hasElse'):
+                cn = set()
+
+                def walkc(x):
+                    if isinstance(x, dict):
+                        if x.get('kind') in ('MemberExpr', 'DeclRefExpr'):
+                            cn.add(x.get('name') or x.get('referencedDecl', {}).get('name'))
+                        for c in x.get('inner', []):
+                            walkc(c)
+                walkc(inner[1 if n.get('hasInit') else 0])
+                hit = [m for m in mention if m in cn]
+                if hit:
+                    self.dropped.add('`if` statements whose condition mentions `%s` (tracing: no effect on verified state)' % hit[0])
+                    return ''
             idx = 0
             pre = ''
             if n.get('hasInit'):
@@ -804,6 +829,37 @@ class Translator:
             if re.fullmatch(pat, qt):
                 self.dropped.add('local of type %s (no effect on verified state)' % qt)
                 return ''
+        if re.fullmatch(r'ScopeDefer<.*>', qt) or re.fullmatch(r'ScopeDefer<.*>', norm(v.get('type', {}).get('desugaredQualType', '') or '')):
+            # llbuild_defer { body }: the (by-reference capturing) lambda body runs at every exit of the enclosing scope
+            lam = []
+
+            def findlam(x):
+                if isinstance(x, dict):
+                    if x.get('kind') == 'LambdaExpr':
+                        lam.append(x)
+                        return
+                    for c in x.get('inner', []):
+                        findlam(c)
+            findlam(v)
+            if len(lam) != 1:
+                raise Unsupported('llbuild_defer without a single lambda')
+            body = [c for c in lam[0].get('inner', []) if c.get('kind') == 'CompoundStmt'][-1]
+            names = set()
+
+            def walkn(x):
+                if isinstance(x, dict):
+                    if x.get('name'):
+                        names.add(x['name'])
+                    for c in x.get('inner', []):
+                        walkn(c)
+            walkn(body)
+            for dn in self.u.get('drop_defers_mentioning', []):
+                if dn in names:
+                    self.dropped.add('llbuild_defer block mentioning `%s` (no effect on verified state)' % dn)
+                    return ''
+            self.defers[-1].append(self.block(body))
+            self.locals[-1][v['id']] = CT('char')
+            return ''
         if re.fullmatch(r'(lock_guard|unique_lock)<.*>', qt) and v.get('inner'):
             core = self.strip(v['inner'][-1])
             args = [a for a in core.get('inner', [])]
@@ -841,7 +897,22 @@ class Translator:
         name = v['name']
         init = v['inner'][-1] if v.get('inner') and 'init' in v else None
         if v.get('storageClass') == 'static':
-            raise Unsupported('static local %s' % name)
+            # a function-local static with a constant (value-initialising) initialiser: a C static, zero initialised
+            core = self.strip(init) if init else None
+            if t.ref or (core is not None and core.get('kind') not in ('InitListExpr', 'CXXConstructExpr', 'ImplicitValueInitExpr')) or \
+                    (core is not None and core.get('inner')):
+                raise Unsupported('static local %s with a non-trivial initialiser' % name)
+            self.locals[-1][v['id']] = t
+            # emitted at file scope as <function>__<name>[_k] so that a contract can state its (value-initialised) content:
+            # dfcc treats every static as arbitrary at function entry
+            if not hasattr(self, 'file_statics'):
+                self.file_statics, self.local_names = [], {}
+            base = '%s__%s' % (self.cur_fn, name)
+            k = sum(1 for n_ in self.file_statics if n_[0] == base or n_[0].startswith(base + '_'))
+            gname = base if k == 0 else '%s_%d' % (base, k)
+            self.file_statics.append((gname, t.decl(gname)))
+            self.local_names[v['id']] = gname
+            return ''
         if t.ref:
             if init is None:
                 raise Unsupported('reference without init')
@@ -1032,9 +1103,10 @@ class Translator:
                 if cv is not None:
                     return cv
                 raise Unsupported('reference to non-local variable %s' % r['name'])
+            nm = getattr(self, 'local_names', {}).get(r['id'], r['name'])
             if t.ref:
-                return '(*%s)' % r['name']
-            return r['name']
+                return '(*%s)' % nm
+            return nm
         if rk in ('FunctionDecl', 'CXXMethodDecl'):
             return r['name']
         raise Unsupported('DeclRefExpr to %s' % rk)
@@ -1319,7 +1391,7 @@ class Translator:
         out = []
         callee = self.cur_callee      # nested calls in the arguments overwrite it
         for i, a in enumerate(args):
-            if sig and i >= len(sig):
+            if sig is not None and i >= len(sig):
                 break           # the model takes only the leading arguments (trailing defaulted ones dropped)
             if a.get('kind') == 'CXXDefaultArgExpr':
                 if a.get('inner'):
@@ -1832,6 +1904,8 @@ class Translator:
         if self.ctor_wrappers:
             for p, bdy in self.ctor_wrappers.values():
                 out.append(p)
+        for gname, decl in getattr(self, 'file_statics', []):
+            out.append('%s;' % decl)
         out.append(self.u.get('models', ''))
         for cn in self.func_order:
             out.append(self.funcs[cn])
